@@ -32,7 +32,7 @@ def mval(n, x):
 
 
 def pts_small(tier):
-    w = 16 if tier == 'thorough' else 13
+    w = 18 if tier == 'thorough' else 13
     return [(n, c) for n in range(w + 1) for c in range(0, 1 << n, 256)]
 
 
@@ -182,7 +182,7 @@ def run_wide(ctx, pt):
 def subchecks():
     return [
         Sub('small-widths', pts_small, run_small, engine='D',
-            bound='every (n,x) with n<=13 (thorough n<=16): all constructors, all conversions out, all round trips'),
+            bound='every (n,x) with n<=13 (thorough n<=18): all constructors, all conversions out, all round trips'),
         Sub('short-bytes', pts_bytes2, run_bytes2, engine='D',
             bound='every byte string of length 0..2 under bitorder in {-1,+1,0,2}, with and without size'),
         Sub('byte-strings', pts_long, run_long, engine='P',
